@@ -27,6 +27,20 @@ PROPS = {
     },
 }
 
+PROPS["C16"] = {
+    "harnesses": [
+        {"pkg": ".", "dir": "s3db", "entry": "VerifH_C16_codec",
+         "quick": {"workers": 8, "timeout": 600}},
+        {"pkg": ".", "dir": "s3db", "entry": "VerifH_C16_fresh",
+         "quick": {"params": "keys=3,commits=2,maxlayer=2", "workers": 16, "timeout": 900, "samples": 3, "validate": 4},
+         "thorough": {"params": "keys=4,commits=2,maxlayer=2", "workers": 16, "timeout": 3000}},
+    ],
+    "bounds": {"quick": "3 symbolic INT keys (full int64), entries_per_node 2, layers 0..2 (uninterpreted), 2 commits",
+               "thorough": "4 keys"},
+    "outside": "protobuf wire bytes (opaque codec with proto3 presence rules)",
+    "assumptions": [TIME_RANGE],
+}
+
 # Properties not (yet) claimed, each with the reason.  Kept current by hand.
 NOT_APPLICABLE = {
     "C%02d" % i: "check not built yet in this session (breadth-first build order, DESIGN §9); no claim is made" for i in range(1, 21)
